@@ -94,6 +94,61 @@ def _safe_pos(e):
     return ["+", ["const", 1.0], ["*", e, e]]
 
 
+NEAR_CONSTS = [-1.0, -2.0, 1.0, 2.0, 0.5, -0.5, 3.0, 4.0]
+
+
+def _is_guard(node):
+    """Sub-trees whose constants/operators keep an argument admissible (1 + e*e, 2 + sin e, 0.5 * sin e): never mutated."""
+    if node[0] == "+" and node[1][0] == "const" and node[2][0] == "*" and node[2][1] == node[2][2]:
+        return True
+    if node[0] in ("+", "*") and node[1][0] == "const" and node[2][0] == "fn" and node[2][1] == "sin":
+        return True
+    return False
+
+
+def _near_sites(node, path, out):
+    if not isinstance(node, list) or not node or not isinstance(node[0], str):
+        return
+    op = node[0]
+    guard = _is_guard(node)
+    if op == "const":
+        out.append((path, "const"))
+    elif op in ("+", "-") and not guard and len(node) == 3:
+        out.append((path, "op"))
+    elif op == "fn" and node[1] in ("sin", "cos"):
+        out.append((path, "fn"))
+    for i, c in enumerate(node):
+        if i == 0 or not isinstance(c, list):
+            continue
+        if guard and i == 1:
+            continue            # the guarding constant itself
+        if op == "pow" and node[2] < 0:
+            continue            # base of a negative power is a guarded expression
+        _near_sites(c, path + (i,), out)
+
+
+def _near_copy(g, e):
+    """A copy of e with exactly one token changed (None if e has no mutable token)."""
+    import copy
+    sites = []
+    _near_sites(e, (), sites)
+    if not sites:
+        return None
+    path, what = sites[g.draw(st.integers(0, len(sites) - 1))]
+    e2 = copy.deepcopy(e)
+    node = e2
+    for i in path:
+        node = node[i]
+    if what == "const":
+        c = float(node[1])
+        node[1] = g.pick([v for v in (c - 1.0, c + 1.0, -c, 2.0 * c, c - 3.0) if v != c])
+    elif what == "op":
+        node[0] = "-" if node[0] == "+" else "+"
+    else:
+        node[1] = "cos" if node[1] == "sin" else "sin"
+    return e2
+
+
 def gen_scalar(g, depth):
     d = g.dim
     leaf = depth <= 0 or g.chance(0.3)
@@ -118,7 +173,19 @@ def gen_scalar(g, depth):
                 return ["idx", ["hess", ["input", inp["name"]], para or g.spacetime], i, j]
             return ["dx", ["input", inp["name"]], g.draw(st.integers(0, d - 1)), para]
         return ["idx", ["jac"], g.draw(st.integers(0, g.geo_dim - 1)), g.draw(st.integers(0, d - 1))]
-    k = g.pick(["+", "-", "*", "*", "/", "pow", "fn", "fn", "fnpair", "inner", "tr", "det", "idxv", "neg"])
+    k = g.pick(["+", "-", "*", "*", "/", "pow", "fn", "fn", "fnpair", "near", "inner", "tr", "det", "idxv", "neg"])
+    if k == "near":
+        # two compound sub-expressions which differ in exactly ONE token (a constant, +/-, sin/cos, a derivative index):
+        # they must never be merged or shared ("merged only if semantically identical")
+        e = gen_scalar(g, max(depth - 1, 1))
+        e2 = _near_copy(g, e)
+        if e2 is None:
+            e2 = ["+", e, ["const", g.pick(NEAR_CONSTS)]]
+            e = ["+", e, ["const", g.pick(NEAR_CONSTS)]]
+        if g.funcs_ok and g.chance(0.5):
+            f = g.pick(["sin", "cos", "abs"])
+            e, e2 = ["fn", f, e], ["fn", f, e2]
+        return [g.pick(["+", "-", "*"]), e, e2]
     if k == "fnpair" and g.funcs_ok:
         # two (possibly different) builtin functions of the SAME compound argument, e.g. sin(g)*cos(g)
         e = gen_scalar(g, max(depth - 1, 1)) if g.chance(0.7) else gen_scalar(g, 0)
